@@ -3,3 +3,4 @@ import RB.Util.Driver
 import RB.Model.Stats
 import RB.Model.Cmdline
 import RB.Proofs.C15
+import RB.Proofs.C03
